@@ -799,7 +799,7 @@ def _check_kernel(ctx):
     x1 = P - A, x2 = P - B and T = 2 a:   S(0, 0) = 1,   S(n1 + 1, n2) = x1 S(n1, n2) + (n1 S(n1 - 1, n2) + n2 S(n1, n2 - 1)) / T,
     and S(n1, n2; x1, x2) = S(n2, n1; x2, x1).  `GaussianOverlap.__init__` (binomials, double factorials) and
     `compute_overlap_gaussian_1d` are interpreted with exact stubs for scipy's binom / factorial2; the identities are
-    polynomial identities in x1, x2 and 1/T, checked for all n1, n2 <= 5.  Any other correct algorithm satisfies them."""
+    polynomial identities in x1, x2 and 1/T, checked for all n1, n2 <= 7.  Any other correct algorithm satisfies them."""
     import math
     from fractions import Fraction
 
@@ -822,7 +822,7 @@ def _check_kernel(ctx):
         return 1 if m <= 0 else math.prod(range(m, 0, -2))
 
     stubs = {"scipy.special.binom": lambda a, k: Fraction(math.comb(int(a[0]), int(a[1]))), "scipy.special.factorial2": fact2}
-    nmax = 5
+    nmax = 7  # the property quantifies over n1, n2 <= 7
     rec = Rec(gc)
     x1, x2, T = Sym.atom("x1"), Sym.atom("x2"), Sym.atom("T")
     S = {}
@@ -845,8 +845,18 @@ def _check_kernel(ctx):
         return
     except NotSymbolic as exc:
         raise AnalysisError(f"GaussianOverlap is outside the evaluation whitelist: {exc}") from exc
+    def close(a, b):
+        """Equal as polynomials, up to rounding of numeric constants the kernel may contain (a quadrature rule): every
+        coefficient of the difference is below 1e-9 of the largest coefficient involved.  Exact kernels differ by 0."""
+        a, b = Sym.const(a), Sym.const(b)
+        if a == b:
+            return True
+        d = a - b
+        scale = max([1.0] + [abs(float(c)) for c in list(a.terms.values()) + list(b.terms.values())])
+        return all(abs(float(c)) <= 1e-9 * scale for c in d.terms.values())
+
     bad = None
-    if not (S[(0, 0)] == Sym.const(1)):
+    if not close(S[(0, 0)], Sym.const(1)):
         bad = f"S(0, 0) = {S[(0, 0)]!r}, expected 1"
     zero = Sym.const(0)
     for n1 in range(nmax):
@@ -854,10 +864,10 @@ def _check_kernel(ctx):
             if bad:
                 break
             rhs = x1 * S[(n1, n2)] + (Sym.const(n1) * (S[(n1 - 1, n2)] if n1 else zero) + Sym.const(n2) * (S[(n1, n2 - 1)] if n2 else zero)) / T
-            if not (S[(n1 + 1, n2)] == rhs):
+            if not close(S[(n1 + 1, n2)], rhs):
                 bad = f"S({n1 + 1}, {n2}) = {str(S[(n1 + 1, n2)])[:70]} differs from x1 S({n1}, {n2}) + ({n1} S({n1 - 1}, {n2}) + {n2} S({n1}, {n2 - 1})) / T = {str(rhs)[:70]}"
     for (n1, n2), v in Sx.items():
-        if not bad and not (v == S[(n1, n2)]):
+        if not bad and not close(v, S[(n1, n2)]):
             bad = f"S({n1}, {n2}; x1, x2) differs from S({n2}, {n1}; x2, x1): the kernel is not symmetric under exchanging the two functions"
     if bad:
         ctx.violate("R11", f"1-D overlap kernel: {bad}", kern, kern.node, construct=f"kernel recurrence: {bad}"[:170])
